@@ -24,7 +24,14 @@ outline and store contents per tick).
 """
 from engine import Ob
 from engine import flobuild as fb
-from ioflo.base.building import Connectives
+
+# The connectives are the harness's own copy of the documented list (NOT imported from ioflo: a change of the
+# builder's list must not silently change which splits are exercised).  A continuation line may also begin
+# with a comparison: the builder joins every line that starts with a reserved word.
+CONNECTIVES = ["to", "by", "with", "from", "per", "for", "cum", "qua", "via", "as", "at", "in", "of", "on", "re", "is",
+               "if", "be", "into", "and", "not", "+-"]
+COMPARISONS = ["==", "<", "<=", ">=", ">", "!="]
+Connectives = CONNECTIVES + COMPARISONS
 
 PROPERTY = "C16"
 ENGINE = "E1"
@@ -35,6 +42,9 @@ ASSUMPTIONS = [
     "selector-symbolic only: program, command index and layout edits are symbolic selectors realised per path; "
     "Builder and the 3-tick run execute under NoTracing() on concrete text; the solver's role is the proof that "
     "the bounded edit space was exhausted",
+    "connective-led splits use the harness's own copy of the documented connective list plus the comparison words "
+    "(every line starting with a reserved word is joined by the builder); every one of them except `on` (log verb only) "
+    "occurs at a split position of the base programs and is required as a cover label",
     "six fixed base programs (listed in bounds); no logger / server commands (their run touches the file system "
     "and sockets)",
     "edits on one command (quick: any 1 or 2 edits; thorough also: 1 edit + at most one edit on the next command, and "
@@ -58,6 +68,7 @@ framer main be active first top
     frame b in top
       inc .x with 2
       go a if .x < 4 +- 0
+      go a if .x != 2 and .x <= 1 and .x > 9
       go next if .x >= 4
     frame c in top
       print reached "frame c" now
@@ -67,11 +78,13 @@ framer main be active first top
 """
 P2 = """house h2
 init .trial with depth 5 height 10
+init .init with trial "trial"
 framer test be active first t0 via .top.
   frame t0 via pop
     do doer param at enter via cop per flavor sweet
     do doer at enter per trial ".trial"
     do doer param as my name at recur with stuff 5 from depth in .trial
+    do doer param at enter for trial in .init cum stuff 7 qua depth in .trial
     put 1 into zop of me
     put "a # b" into note of frame
     put 'say "hi"' into quote of framer
@@ -171,7 +184,8 @@ framer g be active first over1
     go quit if recurred >= 3
     frame under1 in over1
       set elapsed with 0.25
-      go next if elapsed >= goal
+      set recurred to 1
+      go next if elapsed >= goal and recurred re me >= 0
     frame under2 in over1
       next quit
       put x 3 y 4 into x y in .a.b
@@ -337,6 +351,9 @@ def h(sym, pi, ci, nedits, nextedit, reduced=False):
     sym.assume(ok)
     sym.check(canon[0] == "ok", "C16/canonical-program-does-not-build", str(canon[:3])[:200])
     sym.note("script", text)
+    for k, v in attrs.items():
+        if isinstance(k, tuple) and v == "conn":
+            sym.cover("split-before:" + cmds[ci][1][k[1]])
     symptom = symptom_of(canon, got)
     if symptom is None:
         sym.cover("same")
@@ -387,8 +404,9 @@ def obligations(tier):
             c1 = min(c0 + block, len(cmds))
             name = "p%d/cmd%d-%d" % (pi + 1, c0, c1 - 1)
             prog = PROGRAMS[pi].splitlines()
+            words = sorted(set(t for ci in range(c0, c1) for t in cmds[ci][1][1:] if t in Connectives))
             out.append(Ob("layout/" + name, h_block, dict(pi=pi, c0=c0, c1=c1, nedits=2, nextedit=False),
-                          budget=400 if quick else 1500, per_path=60, covers=["same"],
+                          budget=400 if quick else 1500, per_path=60, covers=["same"] + ["split-before:" + w for w in words],
                           bounds=dict(common, program=prog, edits_on_one_command="any 1 or 2")))
             if not quick:
                 out.append(Ob("cross/" + name, h_block, dict(pi=pi, c0=c0, c1=c1, nedits=1, nextedit=True),
